@@ -28,7 +28,7 @@ func (c19) Assumptions() []string {
 }
 func (c19) Floors(tier string, c map[string]int64) []string {
 	var out []string
-	for _, k := range []string{"op/SetType", "op/Add", "op/Remove", "op/AddAttr", "op/AddRel", "op/SetOriginal", "remove/front", "remove/middle", "remove/end", "remove/missing", "add/conflicting", "add/wider", "add/wrapped", "settype/after-add"} {
+	for _, k := range []string{"op/SetType", "op/Add", "op/Remove", "op/AddAttr", "op/AddRel", "op/SetOriginal", "remove/front", "remove/middle", "remove/end", "remove/missing", "add/conflicting", "add/wider", "add/wrapped", "add/own-type-pointer", "settype/after-add"} {
 		if c[k] == 0 {
 			out = append(out, "never observed: "+k)
 		}
@@ -43,6 +43,7 @@ type c19op struct {
 	Res    *ResSpec  `json:"res,omitempty"`
 	ResT   *TypeSpec `json:"res_type,omitempty"`
 	ID     string    `json:"id,omitempty"`
+	OwnType bool     `json:"own_type,omitempty"` // Add: the resource is created from the collection's own *Type
 	Target int       `json:"target,omitempty"` // SetOriginal: which added resource
 	Val    *Val      `json:"val,omitempty"`
 }
@@ -95,7 +96,7 @@ func (m c19) Case(c *Ctx, r *RNG) {
 	ids := []string{"1", "2", "3", "a", "b", ""}
 	nAdded := 0
 	for len(ops) < n {
-		switch r.Intn(12) {
+		switch r.Intn(13) {
 		case 0:
 			ops = append(ops, c19op{Op: "SetType", Name: []string{"col", "col2"}[r.Intn(2)], Fields: append(subsetStrings(r, d.names), always...)})
 		case 1, 2, 3, 4:
@@ -133,7 +134,7 @@ func (m c19) Case(c *Ctx, r *RNG) {
 				rt.Attrs = append(rt.Attrs, AttrSpec{Name: "extra" + fmt.Sprint(r.Intn(2)), Kind: KInt})
 			}
 			rs := genResource(r, &rt, ids[r.Intn(len(ids))])
-			ops = append(ops, c19op{Op: "Add", Res: rs, ResT: &rt})
+			ops = append(ops, c19op{Op: "Add", Res: rs, ResT: &rt, OwnType: r.Chance(1, 5)})
 			nAdded++
 		case 5, 6:
 			ops = append(ops, c19op{Op: "Remove", ID: append(ids, "missing")[r.Intn(len(ids)+1)]})
@@ -143,7 +144,7 @@ func (m c19) Case(c *Ctx, r *RNG) {
 		case 8:
 			name := d.names[5+r.Intn(3)]
 			ops = append(ops, c19op{Op: "AddRel", Name: name})
-		case 9, 10:
+		case 9, 10, 11:
 			if nAdded == 0 {
 				continue
 			}
@@ -348,7 +349,20 @@ func (m c19) run(c *Ctx, d *c19dict, ops []c19op, r *RNG) {
 				typ := buildType(&nt)
 				col.SetType(&typ)
 			case "Add":
-				res := buildResource(o.ResT, o.Res)
+				var res jsonapi.Resource
+				if o.OwnType && col.Type != nil {
+					// a soft resource created from the collection's own *Type (same pointer), touched before Add
+					rt := cur
+					rt.Wrapped = false
+					rs := genResource(r, &rt, o.Res.ID)
+					o.ResT, o.Res = &rt, rs
+					ops[step] = o
+					res = col.Type.New()
+					applySpec(res, &rt, rs)
+					c.Count("add/own-type-pointer")
+				} else {
+					res = buildResource(o.ResT, o.Res)
+				}
 				originals = append(originals, res)
 				originalT = append(originalT, o.ResT)
 				col.Add(res)
